@@ -66,6 +66,9 @@ class C06(Prop):
             r = self.model("MC_StabSem", "MC_StabSem_c06_n%d.cfg" % n, name="stabsem_n%d" % n, collect=True,
                            expect_distinct=(7 if n == 1 else 91))
             self.cpairs[n] = [(e[1], e[2]) for e in r.printed if e[0] == "CP"]
+        # L2: the transcribed kernels refine the semantics on the complete tableau space (48 / 34560 tableaux)
+        self.model("MC_Tableau", "MC_Tableau_n1.cfg", name="tableau_impl_n1", expect_distinct=48)
+        self.model("MC_Tableau", "MC_Tableau_n2.cfg", name="tableau_impl_n2", expect_distinct=34560, timeout=3000)
         self.maps = {}
         for n in (1, 2):
             pf = "%s/maps_n%d.txt" % (self.wd, n)
